@@ -67,11 +67,11 @@ func runVerify(k *kernel.K) {
 		epoch := uint64(0)
 		if parent.number > 0 {
 			epoch = parent.epoch
-			if int(epoch) < maxEpoch && pi >= sc.declarer[epoch+1] && k.Bool(1, 2, "next-epoch") {
+			if int(epoch) < maxEpoch && sc.declared(pi, epoch+1) && k.Bool(1, 2, "next-epoch") {
 				epoch++
 			}
 		}
-		ep := sc.epochs[epoch]
+		ep := sc.epochRef(parent, epoch)
 		var slot uint64
 		if parent.number == 0 {
 			slot = sc.S0 + uint64(k.Choose(int(2*sc.L), "slot"))
@@ -92,11 +92,11 @@ func runVerify(k *kernel.K) {
 		if !d.noPre && parent.number > 0 {
 			// the block's epoch follows from the slot it claims (a relabelled slot may leave the epoch)
 			if e2 := sc.refEpochOf(parent, d.c.slot); e2 != epoch {
-				if e2 != epoch+1 || int(e2) > maxEpoch || pi < sc.declarer[e2] {
+				if e2 != epoch+1 || int(e2) > maxEpoch || !sc.declared(pi, e2) {
 					k.Probe("claimed-slot-outside-known-epochs")
 					continue
 				}
-				epoch, ep = e2, sc.epochs[e2]
+				epoch, ep = e2, sc.epochRef(parent, e2)
 			}
 		}
 		blk := sc.buildBlock(d)
